@@ -54,7 +54,37 @@ def main():
         st_missed = summ["missed"]
         print("   selftest: caught %d/%d breaking variants, %d/%d benign twins silent, stale=%s" % (
             summ["caught"], summ["breaking"], summ["benign_silent"], summ["benign"], summ["stale"]))
+    benign_alarm = []
+    if ctx.tier == "thorough" and not a.replay and not os.environ.get("VERIF_NO_SELFTEST"):
+        # false-alarm probes: the quick check must stay silent on behaviour-preserving whole-tree transformations of /repo
+        # (tools/benign_transform.py): every local renamed, every alias local inlined, new alias locals introduced
+        import shutil
+        import subprocess
+        import tempfile
+        probes = {}
+        for mode in ("rename", "inline", "introduce"):
+            dest = tempfile.mkdtemp(prefix="andes_verif_benign_%s_" % mode)
+            try:
+                t = subprocess.run([sys.executable, os.path.join(HERE, "tools", "benign_transform.py"), mode, dest],
+                                   capture_output=True, text=True)
+                if t.returncode != 0:
+                    probes[mode] = dict(status="transform failed", detail=t.stderr[-200:])
+                    continue
+                env = dict(os.environ, VERIF_REPO=dest, VERIF_EVIDENCE_DIR=os.path.join(dest, ".evid"), VERIF_NO_SELFTEST="1")
+                r = subprocess.run([os.path.join(HERE, "vcheck"), pid, "--tier", "quick"], env=env, capture_output=True, text=True)
+                lines = [ln.strip() for ln in r.stdout.splitlines() if ln.strip().startswith(("rule=", "ANALYSIS-ERROR"))]
+                probes[mode] = dict(status={0: "silent", 1: "FALSE ALARM", 2: "analysis error"}.get(r.returncode, str(r.returncode)),
+                                    transformed=t.stdout.strip().split(" -> ")[0], reports=lines[:3])
+                if r.returncode != 0:
+                    benign_alarm.append("%s: %s" % (mode, lines[:2]))
+            finally:
+                shutil.rmtree(dest, ignore_errors=True)
+        ctx.extra["benign_transforms"] = probes
+        print("   benign whole-tree transformations: " + ", ".join("%s=%s" % (k, v["status"]) for k, v in probes.items()))
     code = finish(ctx)
+    if benign_alarm:
+        print("ANALYSIS-ERROR: property=%s the quick check is not silent on a behaviour-preserving transformation: %s" % (pid, benign_alarm))
+        return 2
     if st_missed:
         print("ANALYSIS-ERROR: property=%s selftest variants not decided as expected: %s" % (pid, st_missed))
         return 2
